@@ -405,6 +405,7 @@ class Family:
             res.findings += self.reentrant_insert(raising=True)
         if self.prop == "C03":
             res.findings += self.shared_result_object()
+            res.findings += self.one_shot_unset()
         if self.prop == "C07":
             res.findings += self.read_during_iteration()
         if self.prop in ("C01", "C10"):
@@ -677,6 +678,37 @@ class Family:
                         "impl-vs-spec", f"mem/{'auto' if au else 'noauto'}: q = {label}: " + "; ".join(f"{k} = {v} (expected {want[k]})" for k, v in bad.items())[:600],
                         dict(family="hist-container-args", query=label, auto_index=au, observed={k: str(v) for k, v in bad.items()},
                              property=self.prop)))
+        return out[:1]
+
+    def one_shot_unset(self):
+        """`unset_tags` / `unset_fields` are `Union[str, Iterable[str]]`: a generator or an iterator is an iterable of strings,
+        and the keys it yields are removed like those of a list"""
+        tf = C.import_tinyflux()
+        from tinyflux.storages import MemoryStorage
+
+        out = []
+        forms = [("a list", lambda ks: list(ks)), ("a tuple", lambda ks: tuple(ks)), ("a generator", lambda ks: (k for k in ks)),
+                 ("an iterator", lambda ks: iter(list(ks))), ("a set", lambda ks: set(ks)), ("dict keys", lambda ks: {k: 1 for k in ks}.keys())]
+        for au in (True, False):
+            for slot in ("unset_tags", "unset_fields"):
+                for fname, mk in forms:
+                    db = tf.TinyFlux(storage=MemoryStorage, auto_index=au)
+                    for i in range(3):
+                        db.insert(tf.Point(time=V.dt_of(G.T0 + i), measurement="m", tags={"a": "x", "b": "y", "c": str(i)},
+                                           fields={"a": 1, "b": 2, "c": i}))
+                    try:
+                        n = db.update(tf.TagQuery().c != "1", **{slot: mk(["a", "b"])})
+                    except Exception as e:
+                        n = "raised " + type(e).__name__
+                    attr = "tags" if slot == "unset_tags" else "fields"
+                    got = [sorted(getattr(p, attr)) for p in db.all(sorted=False)]
+                    want = [["c"], ["a", "b", "c"], ["c"]]
+                    if (n, got) != (2, want):
+                        out.append(Finding(
+                            "impl-vs-spec", f"mem/{'auto' if au else 'noauto'}: update(c != '1', {slot}=<{fname} yielding 'a', 'b'>) answered {n} and "
+                            f"left the {attr} keys {got} (expected 2 and {want})",
+                            dict(family="hist-one-shot-unset", slot=slot, form=fname, auto_index=au, observed=str(got), expected=str(want),
+                                 property=self.prop)))
         return out[:1]
 
     def shared_result_object(self):
@@ -1083,6 +1115,10 @@ def replay(payload):
     if payload.get("family") == "hist-container-args":
         r = Family(payload.get("property", "C01")).container_test_args()
         print(r[0].summary if r else "container-argument scenario passes")
+        return bool(r)
+    if payload.get("family") == "hist-one-shot-unset":
+        r = Family(payload.get("property", "C03")).one_shot_unset()
+        print(r[0].summary if r else "one-shot unset scenario passes")
         return bool(r)
     if payload.get("family") == "hist-shared-result":
         r = Family(payload.get("property", "C03")).shared_result_object()
